@@ -114,3 +114,8 @@ REGISTRY.update({
     "C37": _mc("explicit-state enumeration of inputs (two node numberings) x mutation menu x input time scale x option product; predicate oracle on the returned tree sequence, non-return is a violation",
                "Every bounded ARG x mutation menu (incl. above-root mutations) x time scale {1,1e4} x num_intervals {1,2,100} x num_iterations {1,10} x match_segregating_sites: rescale_tree_sequence must return a valid tree sequence with identical topology, sites and mutation placement, unchanged sample times, a non-decreasing map of non-sample times and every mutation at its branch midpoint."),
 })
+
+REGISTRY.update({
+    "C35": _mc("explicit-state enumeration of inputs x pathological-input decorators x methods x option menu x return flags, plus the complete menu of single invalid parameters; return-shape / exception-class oracle",
+               "Every bounded ARG x 3-5 mutation patterns x 12 decorators (time scales 2^-20..1e12, historical leaf, internal sample, free leaf, isolated sample with and without its own mutation, migrations, unphased diploids, no sites) x 8-10 method/option vectors x return_fit/return_likelihood: each call returns the documented shape or raises ValueError/NotImplementedError with a message; 18 kinds of invalid parameter x methods x return flags are always rejected cleanly."),
+})
